@@ -13,6 +13,7 @@ import hashlib
 import warnings
 import itertools
 import contextlib
+import math
 import numpy as np
 from mc import engine, alpha, ref, compare
 from mc.engine import Acc
@@ -461,6 +462,8 @@ def reject_cases():
     for kind in ('cov-bar-name', 'cov-asymmetric', 'cov-indefinite', 'cov-nonsquare', 'cov-wrong-means', 'cov-negative-variance'):
         for dim in (1, 2, 3):
             cases.append({'kind': 'reject', 'what': kind, 'dim': dim})
+    # the other side of the boundary: singular positive-semidefinite matrices (perfectly correlated inputs, a vanishing variance) are legitimate
+    cases.append({'kind': 'reject', 'what': 'cov-singular-psd-accepted', 'dim': 0})
     # aliasing: the constructors must not keep references to the caller's mutable arguments
     for kind in ('alias-idl-list', 'alias-idl-ndarray', 'alias-samples', 'alias-names', 'alias-cov-matrix', 'alias-cov-means', 'alias-jackknife'):
         for nrep in (1, 2):
@@ -483,6 +486,37 @@ def run_case(case):
     pe = engine.import_pyerrors()
     acc = Acc()
     what = case['what']
+    if what == 'cov-singular-psd-accepted':
+        mats = {}
+        for dim in (2, 3, 4):
+            for rank in range(1, dim):
+                for scale in (1.0, 1e-6, 1e5):
+                    V = alpha.rng('psd', dim, rank).normal(size=(dim, rank)) * scale
+                    mats['outer-products dim %d rank %d scale %g' % (dim, rank, scale)] = V @ V.T
+            mats['all entries equal, dim %d' % dim] = 0.3 * np.ones((dim, dim))
+            mats['one vanishing variance, dim %d' % dim] = np.diag([0.0] + [0.1 * (i + 1) for i in range(dim - 1)])
+            mats['zero matrix, dim %d' % dim] = np.zeros((dim, dim))
+        for nm, S in mats.items():
+            n = len(S)
+            try:
+                ol = pe.cov_Obs([1.0 + i for i in range(n)], S, 'cvs')
+                bad = None
+                for i, o in enumerate(ol):
+                    bad = bad or compare.wf_any(o, pe)
+                    if not bad and not abs(o.dvalue - math.sqrt(S[i, i])) <= 1e-12 * math.sqrt(S[i, i]) + 1e-300:
+                        bad = 'error %r, sqrt of the variance %r' % (o.dvalue, math.sqrt(S[i, i]))
+                tot = sum(ol[1:], ol[0])
+                tot.gamma_method()
+                if not bad and not abs(tot.dvalue ** 2 - float(np.sum(S))) <= 1e-10 * float(np.sum(np.abs(S))) + 1e-300:
+                    bad = 'squared error of the sum %r, sum of the matrix %r' % (tot.dvalue ** 2, float(np.sum(S)))
+            except Exception as e:
+                bad = 'refused: %s' % (e,)
+            if bad:
+                acc.fail('accept:cov-singular-psd', dict(case, matrix=nm), 'singular positive-semidefinite covariance (%s): %s' % (nm, bad))
+            else:
+                acc.ok(('psd', nm), True, 'constructed')
+        acc.sample(case)
+        return acc
     if what.startswith('cov-'):
         dim = case['dim']
         S = alpha.cov_matrix(dim, True, 'rej')
